@@ -63,4 +63,21 @@ def remapGo (drv : List (Option Nat)) : List Range → List (Option Nat) → Lis
 def rewireOptimize (cks : List CK) (drv : List (Option Nat)) (rs : List Range) : List Range × List (Option Nat) :=
   remapGo drv (mergePass ((dropEmpty rs).map (constify cks))) []
 
+/-! ## `Node_Rewire::isNoOp()` (`Node_Rewire.cpp:278-298`), the test behind `removeNoOps` for rewire nodes -/
+
+/-- the loop: every range reads input 0 at the running offset; result = final offset -/
+def noOpGo : List Range → Nat → Option Nat
+  | [], off => some off
+  | r :: rs, off =>
+    match r.src with
+    | .input idx o => if idx == 0 && o == off then noOpGo rs (off + r.subwidth) else none
+    | _ => none
+
+/-- `nin` = number of input ports, `w0` = width of the driver of input 0 (`none`: unconnected), `sameKind` = output and driver are both
+    BOOL or both BITVEC with the same interpretation (the width part of the `ConnectionType` comparison is `sum = w0`) -/
+def rewireIsNoOp (nin : Nat) (w0 : Option Nat) (sameKind : Bool) (rs : List Range) : Bool :=
+  nin != 0 && (match w0 with
+    | none => false
+    | some w => sameKind && (rs.map (·.subwidth)).sum == w && noOpGo rs 0 == some w)
+
 end Gatery.C01
